@@ -52,7 +52,7 @@ def programs(res, tier, wd):
                2, 0 if tier == "thorough" else 1)
     items += [(h, i % 2 if tier == "thorough" else 0) for i, h in enumerate(p2)]
     if tier == "thorough":
-        p3 = model(res, wd, "Steps(3 calls, full grids, simulate)", 3, 0, simulate=4000)
+        p3 = model(res, wd, "Steps(3 calls, full grids, simulate)", 3, 2, simulate=4000)
         seen = set()
         for h in p3:
             k = json.dumps(h, sort_keys=True)
